@@ -138,8 +138,13 @@ class ImageBatch(DataTensor):
                 split_grids = []
                 tensor_indices_or_sections = args[1]
                 if isinstance(tensor_indices_or_sections, int):
-                    for start in range(0, len(grids), tensor_indices_or_sections):
-                        split_grids.append(grids[start : start + tensor_indices_or_sections])
+                    # n sections: the first len(grids) % n sections have one more item than the others
+                    size, extra = divmod(len(grids), tensor_indices_or_sections)
+                    start = 0
+                    for i in range(tensor_indices_or_sections):
+                        num = size + 1 if i < extra else size
+                        split_grids.append(grids[start : start + num])
+                        start += num
                 elif isinstance(tensor_indices_or_sections, Sequence):
                     indices = list(tensor_indices_or_sections)
                     for start, end in zip([0] + indices, indices + [len(grids)]):
